@@ -380,7 +380,19 @@ package fontscan
 // Incremental refresh: an indexed entry is reused only if the file's modification time is exactly the indexed one;
 // whatever entry is appended carries the file's current modification time (so a replaced file is rescanned).
 //@ opaque mtimeOf(info os.FileInfo) timeStamp
-//@ trusted newTimeStamp
+//   mtimeOf(info) is by definition the nanosecond Unix time of info.ModTime(): unixNanoOf is time.Time.UnixNano as a
+//   function of the time value (both std functions trusted); newTimeStamp is verified to record exactly that value -
+//   any coarser unit would make two versions of a file written close together indistinguishable.
+//@ opaque unixNanoOf(wall uint64, ext int64) int64
+//@ trusted std:time.Time.UnixNano
+//@   ensures [function-of-the-time] result == unixNanoOf(t.wall, t.ext)
+//@   modifies nothing
+//@ trusted std:io/fs.FileInfo.ModTime
+//@   params info
+//@   ensures [defines-mtime] unixNanoOf(result.wall, result.ext) == int64(mtimeOf(info))
+//@   modifies nothing
+//@ func newTimeStamp C16
+//@   mode int
 //@   ensures [mtime] result == mtimeOf(file)
 //@   modifies nothing
 //@ trusted newFootprintFromLoader
